@@ -21,111 +21,122 @@ type leafSpec struct {
 	envKey   string // key triggered through the env source (parse.String path)
 	flagKey  string // key triggered through the std flag source
 	pflagKey string // key triggered through the pflag source
+	decKey   string // key triggered through the decoders and the bare mangler chains
 }
 
 var leafCatalog = []leafSpec{
 	// named scalars
-	{"Level", 4, "named-scalar", keyNamedScalar, "", ""},
-	{"Count", 4, "named-scalar", keyNamedScalar, "", ""},
-	{"Ratio", 3, "named-scalar", keyNamedScalar, "", ""},
-	{"Flag", 3, "named-scalar", keyNamedScalar, "", ""},
-	{"Name", 4, "named-scalar", keyNamedScalar, "", ""},
-	{"Timeout", 3, "named-scalar", keyNamedScalar, "", ""},
-	{"Color", 3, "named-scalar", keyNamedScalar, "", ""},
-	{"Phase", 2, "named-scalar", keyNamedScalar, keyFlagNamedComplex, ""},
-	{"Tiny", 2, "named-scalar", keyNamedScalar, "", ""},
-	{"Big", 2, "named-scalar", keyNamedScalar, "", ""},
+	{"Level", 4, "named-scalar", keyNamedScalar, "", "", ""},
+	{"Count", 4, "named-scalar", keyNamedScalar, "", "", ""},
+	{"Ratio", 3, "named-scalar", keyNamedScalar, "", "", ""},
+	{"Flag", 3, "named-scalar", keyNamedScalar, "", "", ""},
+	{"Name", 4, "named-scalar", keyNamedScalar, "", "", ""},
+	{"Timeout", 3, "named-scalar", keyNamedScalar, "", "", ""},
+	{"Color", 3, "named-scalar", keyNamedScalar, "", "", ""},
+	{"Phase", 2, "named-scalar", keyNamedScalar, keyFlagNamedComplex, "", ""},
+	{"Tiny", 2, "named-scalar", keyNamedScalar, "", "", ""},
+	{"Big", 2, "named-scalar", keyNamedScalar, "", "", ""},
 	// named collections
-	{"Names", 4, "named-collection", "", "", ""},
-	{"Nums", 4, "named-collection", "", "", ""},
-	{"Limits", 4, "named-collection", "", "", ""},
-	{"Labels", 4, "named-collection", "", "", ""},
-	{"TagSet", 3, "named-collection", "", "", ""},
-	{"NameLists", 3, "named-collection", "", "", ""},
+	{"Names", 4, "named-collection", "", "", "", ""},
+	{"Nums", 4, "named-collection", "", "", "", ""},
+	{"Limits", 4, "named-collection", "", "", "", ""},
+	{"Labels", 4, "named-collection", "", "", "", ""},
+	{"TagSet", 3, "named-collection", "", "", "", ""},
+	{"NameLists", 3, "named-collection", "", "", "", ""},
 	// collections of named elements / keys
-	{"[]Count", 3, "named-elem", keyNamedElem, "", ""},
-	{"[]Level", 2, "named-elem", keyNamedElem, "", ""},
-	{"[]Name", 3, "named-elem", keyNamedElem, "", ""},
-	{"[]Ratio", 2, "named-elem", keyNamedElem, "", ""},
-	{"[]Flag", 2, "named-elem", keyNamedElem, "", ""},
-	{"[]Timeout", 2, "named-elem", keyNamedElem, "", ""},
-	{"map[string]Level", 3, "named-elem", keyNamedElem, "", ""},
-	{"map[string]Count", 2, "named-elem", keyNamedElem, "", ""},
-	{"map[string]Name", 2, "named-elem", keyNamedElem, "", ""},
-	{"map[string]Ratio", 2, "named-elem", keyNamedElem, "", ""},
-	{"map[Name]string", 2, "named-elem", keyNamedElem, "", ""},
-	{"map[Name]Level", 2, "named-elem", keyNamedElem, "", ""},
-	{"ByName", 2, "named-elem", keyNamedElem, "", ""},
+	{"[]Count", 3, "named-elem", keyNamedElem, "", "", ""},
+	{"[]Level", 2, "named-elem", keyNamedElem, "", "", ""},
+	{"[]Name", 3, "named-elem", keyNamedElem, "", "", ""},
+	{"[]Ratio", 2, "named-elem", keyNamedElem, "", "", ""},
+	{"[]Flag", 2, "named-elem", keyNamedElem, "", "", ""},
+	{"[]Timeout", 2, "named-elem", keyNamedElem, "", "", ""},
+	{"map[string]Level", 3, "named-elem", keyNamedElem, "", "", ""},
+	{"map[string]Count", 2, "named-elem", keyNamedElem, "", "", ""},
+	{"map[string]Name", 2, "named-elem", keyNamedElem, "", "", ""},
+	{"map[string]Ratio", 2, "named-elem", keyNamedElem, "", "", ""},
+	{"map[Name]string", 2, "named-elem", keyNamedElem, "", "", ""},
+	{"map[Name]Level", 2, "named-elem", keyNamedElem, "", "", ""},
+	{"ByName", 2, "named-elem", keyNamedElem, "", "", ""},
 	// user-declared pointers to scalars
-	{"*Level", 3, "user-pointer", keyNamedScalar, "", ""},
-	{"*Name", 3, "user-pointer", keyNamedScalar, "", ""},
-	{"*Count", 2, "user-pointer", keyNamedScalar, "", ""},
-	{"*Flag", 2, "user-pointer", keyNamedScalar, "", ""},
-	{"*int", 2, "user-pointer", "", "", ""},
-	{"*string", 2, "user-pointer", "", "", ""},
-	{"*time.Duration", 2, "user-pointer", "", "", ""},
+	{"*Level", 3, "user-pointer", keyNamedScalar, "", "", ""},
+	{"*Name", 3, "user-pointer", keyNamedScalar, "", "", ""},
+	{"*Count", 2, "user-pointer", keyNamedScalar, "", "", ""},
+	{"*Flag", 2, "user-pointer", keyNamedScalar, "", "", ""},
+	{"*int", 2, "user-pointer", "", "", "", ""},
+	{"*string", 2, "user-pointer", "", "", "", ""},
+	{"*time.Duration", 2, "user-pointer", "", "", "", ""},
 	// user-declared pointers to collections
-	{"*Names", 2, "ptr-collection", keyPtrCollection, "", ""},
-	{"*Limits", 2, "ptr-collection", keyPtrCollection, "", ""},
-	{"*[]string", 2, "ptr-collection", keyPtrCollection, "", ""},
-	{"*map[string]string", 2, "ptr-collection", keyPtrCollection, "", ""},
-	{"*[]Count", 1, "ptr-collection", keyNamedElem, "", ""},
+	{"*Names", 2, "ptr-collection", keyPtrCollection, "", "", ""},
+	{"*Limits", 2, "ptr-collection", keyPtrCollection, "", "", ""},
+	{"*[]string", 2, "ptr-collection", keyPtrCollection, "", "", ""},
+	{"*map[string]string", 2, "ptr-collection", keyPtrCollection, "", "", ""},
+	{"*[]Count", 1, "ptr-collection", keyNamedElem, "", "", ""},
 	// pointers to pointers
-	{"**Count", 2, "double-pointer", "", keyFlagDoublePtr, keyPflagDoublePtr},
-	{"**int", 2, "double-pointer", "", keyFlagDoublePtr, ""},
+	{"**Count", 2, "double-pointer", "", keyFlagDoublePtr, keyPflagDoublePtr, ""},
+	{"**int", 2, "double-pointer", "", keyFlagDoublePtr, "", ""},
+	// a pointer to a pointer to a struct
+	{expr: "**Pt", w: 2, class: "double-pointer", envKey: keyPtrPtrStruct, flagKey: keyPtrPtrStruct, pflagKey: keyPtrPtrStruct},
 	// collections of collections
-	{"[][]string", 2, "nested-collection", keyNestedCollection, "", ""},
-	{"[]Names", 2, "nested-collection", keyNestedCollection, "", ""},
-	{"[]map[string]int", 1, "nested-collection", keyNestedCollection, "", ""},
-	{"[]Limits", 1, "nested-collection", keyNestedCollection, "", ""},
+	{"[][]string", 2, "nested-collection", keyNestedCollection, "", "", ""},
+	{"[]Names", 2, "nested-collection", keyNestedCollection, "", "", ""},
+	{"[]map[string]int", 1, "nested-collection", keyNestedCollection, "", "", ""},
+	{"[]Limits", 1, "nested-collection", keyNestedCollection, "", "", ""},
 	// text-unmarshalable leaves
-	{"Stamp", 2, "text-leaf", "", "", ""},
-	{"*Stamp", 1, "text-leaf", "", "", ""},
-	{"time.Time", 1, "text-leaf", "", "", ""},
-	{"net.IP", 2, "text-leaf", "", keyFlagTextSlice, ""},
+	{"Stamp", 2, "text-leaf", "", "", "", ""},
+	{"*Stamp", 1, "text-leaf", "", "", "", ""},
+	{"time.Time", 1, "text-leaf", "", "", "", ""},
+	{"net.IP", 2, "text-leaf", "", keyFlagTextSlice, "", ""},
 	// predeclared types for contrast
-	{"int", 2, "predeclared", "", "", ""},
-	{"string", 2, "predeclared", "", "", ""},
-	{"bool", 1, "predeclared", "", "", ""},
-	{"float64", 1, "predeclared", "", "", ""},
-	{"uint8", 1, "predeclared", "", "", ""},
-	{"complex128", 1, "predeclared", "", "", ""},
-	{"time.Duration", 2, "predeclared", "", "", ""},
-	{"[]string", 2, "predeclared", "", "", ""},
-	{"[]int", 1, "predeclared", "", "", ""},
-	{"map[string]string", 1, "predeclared", "", "", ""},
-	{"map[string]int", 1, "predeclared", "", "", ""},
-	{"map[string][]string", 1, "predeclared", "", "", ""},
-	{"map[string]struct{}", 1, "predeclared", "", "", ""},
+	{"int", 2, "predeclared", "", "", "", ""},
+	{"string", 2, "predeclared", "", "", "", ""},
+	{"bool", 1, "predeclared", "", "", "", ""},
+	{"float64", 1, "predeclared", "", "", "", ""},
+	{"uint8", 1, "predeclared", "", "", "", ""},
+	{"complex128", 1, "predeclared", "", "", "", ""},
+	{"time.Duration", 2, "predeclared", "", "", "", ""},
+	{"[]string", 2, "predeclared", "", "", "", ""},
+	{"[]int", 1, "predeclared", "", "", "", ""},
+	{"map[string]string", 1, "predeclared", "", "", "", ""},
+	{"map[string]int", 1, "predeclared", "", "", "", ""},
+	{"map[string][]string", 1, "predeclared", "", "", "", ""},
+	{"map[string]struct{}", 1, "predeclared", "", "", "", ""},
 }
 
 // extra leaves only the decoders and manglers can hold
 var structuredLeaves = []leafSpec{
-	{"[2]Level", 2, "named-elem", "", "", ""},
-	{"[3]Name", 1, "named-elem", "", "", ""},
-	{"[]Pt", 2, "struct-elem", "", "", ""},
-	{"map[string]Pt", 2, "struct-elem", "", "", ""},
-	{"[]Stamp", 1, "text-leaf", "", "", ""},
-	{"map[string]Timeout", 1, "named-elem", "", "", ""},
-	{"[]time.Duration", 1, "predeclared", "", "", ""},
-	{"map[string]time.Duration", 1, "predeclared", "", "", ""},
+	{"[2]Level", 2, "named-elem", "", "", "", ""},
+	{"[3]Name", 1, "named-elem", "", "", "", ""},
+	{"[]Pt", 2, "struct-elem", "", "", "", ""},
+	{"map[string]Pt", 2, "struct-elem", "", "", "", ""},
+	{"[]Stamp", 1, "text-leaf", "", "", "", ""},
+	{"map[string]Timeout", 1, "named-elem", "", "", "", ""},
+	{"[]time.Duration", 1, "predeclared", "", "", "", ""},
+	{"map[string]time.Duration", 1, "predeclared", "", "", "", ""},
 	// containers whose elements are pointers: valid input may hold nil elements
-	{"[]*time.Duration", 5, "ptr-elem", "", "", ""},
-	{"map[string]*time.Duration", 4, "ptr-elem", "", "", ""},
-	{"[2]*time.Duration", 3, "ptr-elem", "", "", ""},
-	{"*[]time.Duration", 2, "ptr-collection", "", "", ""},
-	{"*[]*time.Duration", 1, "ptr-elem", "", "", ""},
-	{"**time.Duration", 1, "double-pointer", "", "", ""},
-	{"map[string][]*time.Duration", 1, "ptr-elem", "", "", ""},
-	{"[]*int", 2, "ptr-elem", "", "", ""},
-	{"map[string]*string", 2, "ptr-elem", "", "", ""},
-	{"[]*Level", 2, "ptr-elem", "", "", ""},
-	{"map[string]*Name", 1, "ptr-elem", "", "", ""},
-	{"map[string]*Timeout", 1, "ptr-elem", "", "", ""},
-	{"[]*Stamp", 1, "ptr-elem", "", "", ""},
-	{"[]DurRec", 2, "struct-elem", "", "", ""},
-	{"map[string]DurRec", 1, "struct-elem", "", "", ""},
-	{"[]*DurRec", 1, "ptr-elem", "", "", ""},
+	{"[]*time.Duration", 5, "ptr-elem", "", "", "", ""},
+	{"map[string]*time.Duration", 4, "ptr-elem", "", "", "", ""},
+	{"[2]*time.Duration", 3, "ptr-elem", "", "", "", ""},
+	{"*[]time.Duration", 2, "ptr-collection", "", "", "", ""},
+	{"*[]*time.Duration", 1, "ptr-elem", "", "", "", ""},
+	{"**time.Duration", 1, "double-pointer", "", "", "", ""},
+	{"map[string][]*time.Duration", 1, "ptr-elem", "", "", "", ""},
+	{"[]*int", 2, "ptr-elem", "", "", "", ""},
+	{"map[string]*string", 2, "ptr-elem", "", "", "", ""},
+	{"[]*Level", 2, "ptr-elem", "", "", "", ""},
+	{"map[string]*Name", 1, "ptr-elem", "", "", "", ""},
+	{"map[string]*Timeout", 1, "ptr-elem", "", "", "", ""},
+	{"[]*Stamp", 1, "ptr-elem", "", "", "", ""},
+	{"[]DurRec", 2, "struct-elem", "", "", "", ""},
+	{"map[string]DurRec", 1, "struct-elem", "", "", "", ""},
+	{"[]*DurRec", 1, "ptr-elem", "", "", "", ""},
+	{"[]Small", 2, "struct-elem", "", "", "", ""},
+	{"[2]Small", 1, "struct-elem", "", "", "", ""},
+	{"*Small", 1, "user-pointer", "", "", "", ""},
+	{"map[string]Small", 1, "struct-elem", "", "", "", ""},
+	// element structs with an unexported field
+	{expr: "[]HidRec", w: 2, class: "struct-elem", decKey: keyElemUnexported},
+	{expr: "[2]HidRec", w: 1, class: "struct-elem", decKey: keyElemUnexported},
+	{expr: "map[string]HidRec", w: 1, class: "struct-elem"},
 }
 
 var leafClassOf = func() map[string]string {
@@ -143,16 +154,25 @@ var embedCatalog = []struct {
 }{
 	{"EmbNamed", keyNamedScalar}, {"EmbPtr", keyNamedScalar}, {"EmbDeep", keyNamedScalar},
 	{"EmbA", ""}, {"EmbB", ""},
+	// embeds whose members are collections of structs (listed twice: drawn more often)
+	{"EmbSlices", ""}, {"EmbSlicesTagged", ""}, {"EmbSlices", ""}, {"EmbSlicesTagged", ""},
 }
 
 func keyFor(l leafSpec, source string) string {
 	switch source {
-	case "env", "manglers": // the manglers test holds the string caster, the same parse.String path
+	case "manglers": // the manglers test holds the string caster (the parse.String path) and the recursing manglers
+		if l.decKey != "" {
+			return l.decKey
+		}
+		return l.envKey
+	case "env":
 		return l.envKey
 	case "flag":
 		return l.flagKey
 	case "pflag":
 		return l.pflagKey
+	case "json", "yaml", "toml", "cue":
+		return l.decKey
 	}
 	return ""
 }
@@ -160,7 +180,7 @@ func keyFor(l leafSpec, source string) string {
 // anyKnownFor reports whether some construct of the catalog is behind a known
 // defect for this source.
 func anyKnownFor(source string) bool {
-	for _, l := range leafCatalog {
+	for _, l := range append(append([]leafSpec{}, leafCatalog...), structuredLeaves...) {
 		if k := keyFor(l, source); k != "" && knownDefect(k) {
 			return true
 		}
@@ -316,6 +336,9 @@ func statsOf(fs []shape.Field, st *shapeStats) {
 			st.classes["embed:"+f.Type] = true
 			if f.Type == "EmbNamed" || f.Type == "EmbPtr" {
 				st.classes["named-collection"] = true
+			}
+			if f.Type == "EmbSlices" || f.Type == "EmbSlicesTagged" {
+				st.classes["embedded-struct-collections"] = true
 			}
 		case "skip":
 			st.classes["skip:"+f.Skip] = true
